@@ -27,14 +27,12 @@ EXHAUSTIVE = {"quick": True, "thorough": True}
 
 def run_impl(case):
     try:
-        SF, classes = fsup.mk_section_file(case["secs"])
+        SF, classes = fsup.mk_section_file(case["secs"], io=case.get("io"))
         x = codec.dec_str(case["x"])
-        f = SF.read(x)
+        f = fsup.read_text(SF, x, case.get("io"))
         cap = len(x) + len(case["secs"]) + 5
         elems = [fsup.enc_selem(e, classes) for e in fsup.capped(f.data, cap)]
-        buf = StringIO()
-        f.write(buf)
-        return {"elems": elems, "written": codec.enc_str(buf.getvalue())}
+        return {"elems": elems, "written": codec.enc_str(fsup.write_text(f, case.get("io")))}
     except Exception as e:
         return codec.enc_exc(e)
 
@@ -113,12 +111,22 @@ def random_case(rng):
         elif r < 0.5:
             l = ""
         else:
-            l = "line " + str(rng.randrange(100))
+            l = rng.choice(["line ", "linha ã ", "ñ"]) + str(rng.randrange(100))
         lines.append(l + "\n")
     x = "".join(lines)
     if x and rng.random() < 0.35:
         x = x[:-1]
-    return {"secs": secs, "x": codec.enc_str(x)}
+    case = {"secs": secs}
+    if rng.random() < 0.2 and x:
+        for _ in range(rng.randrange(1, 4)):  # lone carriage returns (in memory only "\n" ends a line)
+            i = rng.randrange(len(x))
+            x = x[:i] + "\r" + x[i:]
+    else:
+        io = fsup.io_of(rng, [x])
+        if io:
+            case["io"] = io
+    case["x"] = codec.enc_str(x)
+    return case
 
 
 def exhaustive_cases():
